@@ -414,6 +414,11 @@ def into_iter(v, it=None):
             return d
     if isinstance(v, list):
         return SliceIter(v)
+    dv = deref(v) if isinstance(v, Ref) else v
+    if isinstance(dv, Agg) and dv.path == 'Option' and it is not None:
+        # Option<T> as an iterator of zero or one element
+        present, payload = opt_fork(it, dv)
+        return ListIter([payload] if present else [])
     raise Unsupported(f'into_iter of {v!r}')
 
 
